@@ -568,6 +568,13 @@ pub fn sqrt64_ok(x: f64, r: f64) -> bool {
     if r != r || !(r > 0.0) || r == f64::INFINITY {
         return false;
     }
+    // monotone around 1 and exact at 1 (any correctly rounded root)
+    if x == 1.0 {
+        return r == 1.0;
+    }
+    if (x < 1.0 && r > 1.0) || (x > 1.0 && r < 1.0) {
+        return false;
+    }
     let rb = r.to_bits();
     let lo = f64::from_bits(rb - 1);
     let hi = f64::from_bits(rb + 1);
